@@ -33,6 +33,14 @@ driver, and an oracle that states the property on the implementation's own tenso
              re-normalises in float32, so loss, new priorities, clipped gradient (1e-5 of its largest entry)
              and weights (2e-6 on well-conditioned entries) are compared with tolerances 30x above the
              measured noise; live-row controls show changes orders of magnitude larger.
+* shapes   : (round 5) `Gen/BellmanShapeGen.lean` (harness/py2lean_bellmanshape.py) gives the SHAPES of prediction, target and
+             element-wise loss of every loss call under torch broadcasting; Props/C08.lean proves them `(B, 1)` for the batch
+             layout the buffers deliver.  Here every learner runs with B in {1, 2, 5} rows and A in {1, 2, 3} actions on a
+             batch from the library's own Transition + ReplayBuffer / MultiAgentReplayBuffer: the field shapes (the
+             theorem's hypotheses) and the shapes of the two tensors entering every `F.mse_loss` call (hooked; nn.MSELoss
+             goes through it) must be `(B, 1)`, the number of calls that of the translation.  Then reward / done are handed
+             over FLAT `(B,)`: error or silent broadcast is recorded in the notes and compared with the Lean witness
+             `(B, B)` (a difference is a model disagreement, not a violation: the buffers never deliver that layout).
 * track    : consecutive learn steps; online/target tensors are snapshotted around `learn` with
              walker.module_tensors (NOT parameters(): detached tensors are seen) and
              target_after is compared with blend(tau, online_after, target_before) (1e-6) on steps
@@ -1427,6 +1435,11 @@ def run_case(chk: Check, case: dict):
         if kind == "track":
             agree, impl, model, problems, tags, detail = run_track_case(chk, case)
             return dict(agree=agree, impl=impl, model=model, problems=problems, tags=tags, detail=detail)
+        if kind == "shapes":
+            r = run_shape_case(case)
+            B = int(case["B"])
+            return dict(agree=not r.get("model_differs"), impl=[str(r["calls"])], model=[str([((B, 1), (B, 1))] * len(r["calls"]))],
+                        problems=r["problems"], tags=["shapes", f"B={B}", f"A={case['A']}"], detail=r)
     except InfraError:
         raise
     except Exception as e:  # the implementation raised on a legal configuration
@@ -1446,6 +1459,8 @@ def run_case(chk: Check, case: dict):
 
 def shrink(chk: Check, case: dict, res: dict) -> dict:
     """smaller failing case: fewer steps / simpler prelude / fewer perturbed rows (ddmin)"""
+    if case.get("kind") == "shapes":
+        return case
     def fails(c):
         try:
             r = run_case(chk, c)
@@ -1685,7 +1700,7 @@ def run(chk: Check) -> None:
             cases.append((c, None))
     while sum(1 for c, _ in cases if c["kind"] == "track") < n_track:
         cases.append((gen_track_case(rng, chk.tier), None))
-    counts = {"loss": [0, 0], "meta": [0, 0], "track": [0, 0]}
+    counts = {"loss": [0, 0], "meta": [0, 0], "track": [0, 0], "shapes": [0, 0]}
     sensitive = [0, 0]
     for case, origin in cases:
         algo = base_algo(case["algo"])
@@ -1722,7 +1737,9 @@ def run(chk: Check) -> None:
             counts[kind][1] += (not res["agree"])
             report(chk, case, res, kind)
     for k, (n, dd) in counts.items():
-        chk.suite(f"bellman-{k}", n, dd)
+        if k != "shapes":               # corpus cases of kind shapes are accounted with suite bellman-shapes below
+            chk.suite(f"bellman-{k}", n, dd)
+    chk.corr["_corpus_shapes"] = counts["shapes"]
     chk.notes.append(f"metamorphic control: perturbing a LIVE row changed the outcome in {sensitive[0]} of "
                      f"{sensitive[0] + sensitive[1]} control cases")
     if sensitive[0] == 0 and sensitive[0] + sensitive[1] >= 3:
@@ -1852,12 +1869,12 @@ def run_shape_case(case: dict) -> dict:
 def run_shapes(chk: Check) -> None:
     quick = chk.tier == "quick"
     combos = [(b, a) for b in (1, 2, 5) for a in (1, 2, 3)]
-    n = dd = 0
+    n, dd = chk.corr.pop("_corpus_shapes", [0, 0])
     flat_seen = {}
     for algo in SHAPE_ALGOS:
         todo = combos if not quick else [combos[i] for i in sorted(chk.rng.sample(range(len(combos)), 3))] + [(1, 1)]
         for B, A in dict.fromkeys(todo):
-            case = {"suite": "shapes", "algo": algo, "B": B, "A": A, "seed": chk.rng.randrange(10 ** 6)}
+            case = {"kind": "shapes", "suite": "shapes", "algo": algo, "B": B, "A": A, "seed": chk.rng.randrange(10 ** 6)}
             try:
                 res = run_shape_case(case)
             except Exception as e:       # noqa: BLE001
@@ -2109,7 +2126,7 @@ def replay(chk: Check, path: str) -> int:
     c = json.loads(open(path).read())
     c = c.get("replay", c)
     case = c.get("case", c)
-    if case.get("suite") == "shapes":
+    if case.get("kind") == "shapes" or case.get("suite") == "shapes":
         res = run_shape_case(case)
         print(json.dumps({"case": case, "observed": res}, indent=1, default=str))
         if res["problems"]:
